@@ -939,6 +939,9 @@ func c09DKG(r *rand.Rand, i int, fx *c09fix) c09cmd {
 		s.idx = r.IntN(n)
 		if r.IntN(8) == 0 {
 			s.idx = intv(r, n)
+		} else if r.IntN(12) == 0 {
+			// out of range but congruent to a legal index modulo 256 / 2^32
+			s.idx = []int{me + 256, me - 256, dealer + 256, me + 512, me + 1<<32, r.IntN(n) + 256}[r.IntN(6)]
 		}
 		switch r.IntN(7) {
 		case 0:
@@ -1009,6 +1012,10 @@ func c09DKG(r *rand.Rand, i int, fx *c09fix) c09cmd {
 			}
 			if !okErr(e) {
 				return bad(entry, desc, "undocumented error: "+e.Error())
+			}
+			// an index outside [0, n-1] is invalid input in every state: some typed error must come back
+			if e == nil && (s.kind <= 3 || s.kind == 5) && (s.idx < 0 || s.idx >= n) {
+				return bad(entry, desc, fmt.Sprintf("call %d with the out-of-range index %d returned no error", s.kind, s.idx))
 			}
 		}
 		return ""
